@@ -208,6 +208,119 @@ func checkLP(c lpCase) *mc.Viol {
 	return nil
 }
 
+// ---- the encoders write the appended bytes and nothing else; overlapping arguments ----
+//
+// dstCase: the destination is a slice of a larger buffer (prefix, spare capacity behind it, guard
+// bytes). After the call only the bytes [len(dst), len(result)) of the buffer may differ; all
+// other bytes of the buffer - the rest of the spare capacity included - keep their contents.
+// With Alias >= 0 the byte string to append is itself a part of the same buffer, lying in the
+// destination's spare capacity at offset Alias behind the place where its prefix ends (in-place
+// framing, moving a record to the front of its own buffer): the result must be prefix || length
+// || the string's original contents.
+
+type dstCase struct {
+	Fn     string `json:"fn"` // varint | varintbytes | uint8bytes
+	Value  uint64 `json:"value,omitempty"`
+	Len    int    `json:"len,omitempty"`
+	Prefix int    `json:"prefix_len"`
+	Spare  int    `json:"spare_capacity"`
+	Alias  int    `json:"alias_offset"` // -1: the string has its own memory
+}
+
+func checkDst(c dstCase) *mc.Viol {
+	const guard = 16
+	hdr := 0
+	switch c.Fn {
+	case "varint":
+		hdr = len(refEnc(c.Value))
+	case "varintbytes":
+		hdr = len(refEnc(uint64(c.Len)))
+	case "uint8bytes":
+		hdr = 1
+	}
+	need := hdr + c.Len
+	total := c.Prefix + c.Spare
+	if c.Alias >= 0 && c.Prefix+hdr+c.Alias+c.Len > total {
+		return nil // the string would not lie inside the spare capacity
+	}
+	buf := make([]byte, guard+total+guard)
+	for i := range buf {
+		buf[i] = byte(0xA0 + i%23)
+	}
+	dst := buf[guard : guard+c.Prefix : guard+total]
+	var v []byte
+	if c.Fn != "varint" {
+		if c.Alias >= 0 {
+			o := guard + c.Prefix + hdr + c.Alias
+			v = buf[o : o+c.Len : o+c.Len]
+		} else {
+			v = make([]byte, c.Len)
+		}
+		for i := range v {
+			v[i] = byte(i*13 + 5)
+		}
+	}
+	before := append([]byte{}, buf...)
+	orig := append([]byte{}, v...)
+	var out []byte
+	if p := mc.Catch(func() {
+		switch c.Fn {
+		case "varint":
+			out = quicwire.AppendVarint(dst, c.Value)
+		case "varintbytes":
+			out = quicwire.AppendVarintBytes(dst, v)
+		case "uint8bytes":
+			out = quicwire.AppendUint8Bytes(dst, v)
+		}
+	}); p != "" {
+		return &mc.Viol{Sig: "Append (" + c.Fn + ") panics", What: fmt.Sprintf("%+v: %s", c, p)}
+	}
+	var want []byte
+	want = append(want, before[guard:guard+c.Prefix]...)
+	switch c.Fn {
+	case "varint":
+		want = append(want, refEnc(c.Value)...)
+	case "varintbytes":
+		want = append(append(want, refEnc(uint64(c.Len))...), orig...)
+	case "uint8bytes":
+		want = append(append(want, byte(c.Len)), orig...)
+	}
+	if !bytes.Equal(out, want) {
+		site := "wrong result into a destination with spare capacity"
+		if c.Alias >= 0 {
+			site = "wrong result when the string lies in the destination's spare capacity"
+		}
+		return &mc.Viol{Sig: "Append (" + c.Fn + "): " + site, What: fmt.Sprintf("%+v: got %x… want %x…", c, out[:min(len(out), 24)], want[:min(len(want), 24)])}
+	}
+	// what may have changed in the caller's buffer: the appended region, if the result lives there
+	lo, hi := guard+c.Prefix, guard+c.Prefix
+	if need <= c.Spare {
+		hi = lo + need
+	} else if c.Alias < 0 {
+		// reallocation: nothing of the buffer needs to change; writing the head into the old capacity
+		// before growing is tolerated (append does that)
+		hi = lo + min(need, c.Spare)
+	}
+	for i := range buf {
+		if i >= lo && i < hi {
+			continue
+		}
+		if c.Alias >= 0 && need > c.Spare {
+			continue // overlapping and reallocating: contents of the old buffer are unspecified behind the prefix
+		}
+		if buf[i] != before[i] {
+			where := "spare capacity behind the appended bytes"
+			if i < guard+c.Prefix {
+				where = "destination prefix (or the bytes in front of it)"
+			} else if i >= guard+total {
+				where = "memory behind the destination's capacity"
+			}
+			return &mc.Viol{Sig: "Append (" + c.Fn + ") writes outside the appended bytes: " + where, What: fmt.Sprintf("%+v: byte %d of the buffer changed %02x -> %02x (appended region is [%d,%d))", c, i-guard, before[i], buf[i], lo-guard, hi-guard)}
+		}
+	}
+	return nil
+}
+
 type rtCase struct {
 	Fn     string `json:"fn"`
 	Len    int    `json:"len"`
@@ -315,6 +428,11 @@ func main() {
 	r.RegisterReplay("lp", func(p json.RawMessage) *mc.Viol { var c lpCase; json.Unmarshal(p, &c); return checkLP(c) })
 	r.RegisterReplay("rt", func(p json.RawMessage) *mc.Viol { var c rtCase; json.Unmarshal(p, &c); return checkRT(c) })
 	r.RegisterReplay("fix", func(p json.RawMessage) *mc.Viol { var c fixCase; json.Unmarshal(p, &c); return checkFix(c) })
+	r.RegisterReplay("dst", func(pj json.RawMessage) *mc.Viol {
+		var c dstCase
+		json.Unmarshal(pj, &c)
+		return checkDst(c)
+	})
 	r.RegisterArch386()
 	if r.IsReplay() {
 		r.DoReplay()
@@ -550,6 +668,36 @@ func main() {
 				r.Case(fmt.Sprintf("rt-%s-%d-%d", fn, l, pl), l > 0, "rt")
 			}
 		}
+	}
+	// ---- destinations with spare capacity, strings inside that capacity ----
+	{
+		var ds []dstCase
+		spares := []int{0, 1, 2, 3, 4, 7, 8, 9, 15, 16, 17, 64, 300}
+		for _, pl := range []int{0, 1, 5} {
+			for _, sp := range spares {
+				for _, val := range []uint64{0, 1, 63, 64, 16383, 16384, 1<<30 - 1, 1 << 30, 1<<62 - 1} {
+					ds = append(ds, dstCase{Fn: "varint", Value: val, Prefix: pl, Spare: sp, Alias: -1})
+				}
+				for _, l := range []int{0, 1, 2, 7, 8, 63, 64, 255, 256, 280} {
+					for _, fn := range []string{"varintbytes", "uint8bytes"} {
+						if fn == "uint8bytes" && l > 255 {
+							continue
+						}
+						ds = append(ds, dstCase{Fn: fn, Len: l, Prefix: pl, Spare: sp, Alias: -1})
+						for _, al := range []int{0, 1, 2, 8, 20} {
+							ds = append(ds, dstCase{Fn: fn, Len: l, Prefix: pl, Spare: sp + l + al + 2, Alias: al})
+						}
+					}
+				}
+			}
+		}
+		for _, c := range ds {
+			if viol := checkDst(c); viol != nil {
+				r.Violation("dst", c, viol)
+			}
+			r.Case(fmt.Sprintf("dst-%+v", c), c.Spare > 0, "dst-only-appended-bytes-written")
+		}
+		r.Set("destination_capacity_cases", len(ds))
 	}
 	r.RunArch386()
 	for _, w := range []int{4, 8} {
